@@ -97,7 +97,7 @@ CHECKS = {
     design='7/C08',
     note='host functions are modelled as returning or raising an XLError; non-error operator results come from the C06/C07 '
          'models; the LR driver itself (evaluation order) is modelled, not verified.',
-    technique='Coq proof (structural induction on expression trees, evaluation-context relation) + random-tree correspondence'),
+    technique='Coq proof (structural induction on expression trees, evaluation-context relation) + ast translator for IFERROR/IFNA/ERROR.TYPE (shape terms proved equal to the model) + random-tree correspondence'),
  'C15': dict(
     text='Coq theorems for strings of any length: LEFT/RIGHT/MID as firstn/skipn with the whole-text, empty and #VALUE! '
          'cases, LEFT&RIGHT split, MID(s,1,n) = LEFT, LEN additive, lengths of slices, three-way LEFT&MID&RIGHT split, slices of a concatenation - and the LEFT/RIGHT/MID source terms regenerated from text.py denote the model functions under Python slice semantics; UPPER/LOWER idempotent and character-wise, lifted from '
